@@ -722,13 +722,50 @@ func ruleSanitiserLoops(w *World, r *Report) {
 	for _, fn := range fns {
 		key := w.FnKey(fn)
 		loops := findLoops(fn)
+		src := fn.Params[len(fn.Params)-1]
+		w.escFuncParam = nil
+		if len(loops) == 0 && escByte != nil {
+			// the scanning loop shared with a sibling through a helper that receives the lookup as a function value:
+			// helper(writer, source, util.EscapeHTMLByte) — the helper's loop is examined with that parameter standing
+			// for the lookup
+			for _, b := range fn.Blocks {
+				for _, ins := range b.Instrs {
+					c, ok := ins.(*ssa.Call)
+					if !ok {
+						continue
+					}
+					cal := c.Common().StaticCallee()
+					if cal == nil || !w.InModule(cal) || cal.Blocks == nil {
+						continue
+					}
+					var sp, fp *ssa.Parameter
+					for ai, a := range c.Common().Args {
+						if ai >= len(cal.Params) {
+							continue
+						}
+						if a == ssa.Value(src) {
+							sp = cal.Params[ai]
+						}
+						for _, f := range funcValues(a) {
+							if f == escByte {
+								fp = cal.Params[ai]
+							}
+						}
+					}
+					if sp != nil && fp != nil && len(findLoops(cal)) == 1 {
+						fn, src, loops = cal, sp, findLoops(cal)
+						w.escFuncParam = fp
+						key = w.FnKey(fn) + " (for " + key + ")"
+					}
+				}
+			}
+		}
 		if len(loops) != 1 {
 			r.Unknown(key+": scanning loop", w.FnPos(fn), fmt.Sprintf("expected exactly one loop, found %d", len(loops)))
 			continue
 		}
 		lp := loops[0]
 		// index phis: integer phis at the header used as an index into the []byte parameter
-		src := fn.Params[len(fn.Params)-1]
 		// the scanning index: either the classic form (header phi i, used as source[i], back edges carry i+1) or the
 		// range form go/ssa produces for `for i, c := range source` (header phi r starting at -1, i = r+1 computed in the
 		// header and used as source[i], back edges carry that same i)
@@ -797,7 +834,7 @@ func ruleSanitiserLoops(w *World, r *Report) {
 						arg = x.Index
 					}
 				case *ssa.Call:
-					if escByte != nil && x.Common().StaticCallee() == escByte {
+					if w.isEscLookupCall(x, escByte) {
 						arg = x.Common().Args[0]
 					}
 				}
@@ -867,6 +904,15 @@ func ruleSanitiserLoops(w *World, r *Report) {
 	r.Expect("html.Writer Write/RawWrite implementations", nW, 1)
 }
 
+// isEscLookupCall: a call of util.EscapeHTMLByte, or of the function parameter that stands for it while a shared
+// scanning helper is examined.
+func (w *World) isEscLookupCall(x *ssa.Call, escByte *ssa.Function) bool {
+	if escByte != nil && x.Common().StaticCallee() == escByte {
+		return true
+	}
+	return w.escFuncParam != nil && !x.Common().IsInvoke() && x.Common().Value == w.escFuncParam
+}
+
 // checkEscapeAlwaysWritten (C03-E, third clause): once the lookup of source[i] has returned an escape, the cycle cannot
 // get back to the loop header (or leave the loop) without having handed that escape to a call — a "do not escape
 // twice" shortcut that skips the replacement when the following bytes look like a character reference lets
@@ -883,7 +929,7 @@ func (w *World) checkEscapeAlwaysWritten(r *Report, fn *ssa.Function, lp Loop, s
 					lookups = append(lookups, x)
 				}
 			case *ssa.Call:
-				if escByte != nil && x.Common().StaticCallee() == escByte {
+				if w.isEscLookupCall(x, escByte) {
 					lookups = append(lookups, x)
 				}
 			}
@@ -984,7 +1030,7 @@ func (w *World) isExaminedRangeFromStart(fn *ssa.Function, sl *ssa.Slice, src *s
 		for _, ins := range b.Instrs {
 			switch x := ins.(type) {
 			case *ssa.Call:
-				if escByte != nil && x.Common().StaticCallee() == escByte {
+				if w.isEscLookupCall(x, escByte) {
 					lookups = append(lookups, x)
 				}
 			case *ssa.UnOp:
@@ -2002,9 +2048,18 @@ func ruleResolvingWriter(w *World, r *Report) {
 				}
 				switch com.Method.Name() {
 				case "Write":
-					arg := com.Args[0]
-					cc, ok := arg.(*ssa.Call)
-					if !ok || cc.Common().StaticCallee() != escByte || escByte == nil {
+					// the result of util.EscapeHTMLByte, possibly kept in a variable that is nil otherwise
+					okArg := escByte != nil
+					for _, leaf := range phiLeaves(com.Args[0]) {
+						if isNilConst(leaf) {
+							continue
+						}
+						cc, ok := leaf.(*ssa.Call)
+						if !ok || cc.Common().StaticCallee() != escByte {
+							okArg = false
+						}
+					}
+					if !okArg {
 						return false, "writes bytes that are not the result of util.EscapeHTMLByte", ins
 					}
 				case "WriteRune":
@@ -2020,11 +2075,29 @@ func ruleResolvingWriter(w *World, r *Report) {
 							return
 						}
 						okPath := false
-						for _, cf := range pathCondFacts(p) {
-							for _, a := range condAtoms(cf.If.Cond, cf.Truth) {
+						for i := 0; i+1 < len(p.Blocks); i++ {
+							iff, isIf := p.Blocks[i].Instrs[len(p.Blocks[i].Instrs)-1].(*ssa.If)
+							if !isIf {
+								continue
+							}
+							// conditions computed from values are resolved along the path (a lookup result kept in a
+							// variable that stays nil for runes >= 256)
+							cond := resolveAlong(iff.Cond, p.Blocks[:i+1])
+							for _, a := range condAtoms(cond, p.Edges[i] == 0) {
 								if bo, ok := a.V.(*ssa.BinOp); ok {
 									if cst, ok := constInt(bo.Y); ok && ((bo.Op == token.LSS && cst <= 256 && !a.Truth) || (bo.Op == token.GEQ && cst >= 128 && cst <= 256 && a.Truth)) {
 										okPath = true
+									}
+									// nil test of a phi resolved along the path
+									if bo.Op == token.EQL || bo.Op == token.NEQ {
+										for _, pr := range [][2]ssa.Value{{bo.X, bo.Y}, {bo.Y, bo.X}} {
+											if isNilConst(pr[1]) {
+												x := resolveAlong(pr[0], p.Blocks[:i+1])
+												if ec, ok := x.(*ssa.Call); ok && ec.Common().StaticCallee() == escByte && (bo.Op == token.EQL) == a.Truth {
+													okPath = true
+												}
+											}
+										}
 									}
 								}
 								if x, isNil, ok := nilTest(a.V); ok && isNil == a.Truth {
